@@ -297,6 +297,17 @@ fn sess_foreign(g: &mut Gen, n_ops: usize) {
         }
         if g.rng.chance(1, 3) {
             let to = g.rng.below(2) as usize;
+            // often with something unacknowledged at the victim, so that a foreign ack would matter
+            if g.rng.chance(1, 2) && g.w.eps[to].kind() == "Online" {
+                let data = g.payload(&[1, 2, 3, 40]);
+                send(g, to, true, &data);
+                if g.rng.chance(1, 2) {
+                    g.line(&format!("{} flush", Gen::ep(to)));
+                }
+            }
+            if !alive(g) {
+                break;
+            }
             let f = foreign(g, to);
             g.feed(to, &f);
         } else {
@@ -351,9 +362,9 @@ fn sess_wrap(g: &mut Gen, total: usize) {
 fn gen_all(tier: &str, seed: u64, out: &mut dyn std::io::Write) {
     let mut g = Gen::new(out, seed.wrapping_mul(0x9e3779b97f4a7c15) ^ if IS7 { 0x7777 } else { 0x6666 });
     let (n_random, n_ops, n_foreign, n_wrap) = match tier {
-        "thorough" => (3000usize, 200usize, 1500usize, 12usize),
+        "thorough" => (1500usize, 150usize, 800usize, 6usize),
         "search" => (400, 80, 200, 1),
-        _ => (220, 60, 160, 1),
+        _ => (100, 50, 70, 1),
     };
     if tier != "search" || seed % 4 == 0 {
         sess_api(&mut g);
